@@ -66,9 +66,9 @@ WINDOW_OUTSIDE = ("more than 2 neighbours of the sale; more than 3 affiliates; f
                   "concrete anchor); split ratios other than m-for-1 with m<=3 in the C15 window shape")
 
 PROPS["C02"] = {
-    "quick": [{"name": "window", "harnesses": ["c02_w_buy_sale_buy"], "jobs": 1, "mem_gb": 28, "harness_timeout_s": 2400,
-               "cbmc_args": ["--max-field-sensitivity-array-size", "400"]}],
-    "thorough": [{"name": "window", "harnesses": ["c02_w_buy_sale_buy", "c02_w_otherbuy_sale_sell",
+    "quick": [{"name": "window", "harnesses": ["c02_w_buy_sale_buy", "c02_w_otherbuy_othersell_sale"], "jobs": 2, "mem_gb": 28,
+               "harness_timeout_s": 2400, "cbmc_args": ["--max-field-sensitivity-array-size", "400"]}],
+    "thorough": [{"name": "window", "harnesses": ["c02_w_buy_sale_buy", "c02_w_otherbuy_othersell_sale", "c02_w_otherbuy_sale_sell",
                                                   "c02_w_regbuy_sale_otherbuy_othersell", "c02_lemma_buy_sale"],
                   "jobs": 2, "mem_gb": 28, "timeout_s": 20000, "harness_timeout_s": 6000,
                   "cbmc_args": ["--max-field-sensitivity-array-size", "400"]}],
@@ -165,7 +165,8 @@ CLAIMS = {
                  "superficial iff acquired>0 and held>0, numerator = min(sold, acquired, held), per-buyer portions, "
                  "over-applied flag). Thorough adds other-affiliate / registered-buyer / later-sale shapes and the "
                  "clause that a later sale inside the window reduces the holdings."),
-        "note": (TRUSTED + "Quick tier = one shape (Buy, loss sale, Buy by the seller); the other shapes are "
+        "note": (TRUSTED + "Quick tier = two shapes (Buy, loss sale, Buy by the seller; Buy and Sell by another affiliate, "
+                 "then the loss sale); the other shapes are "
                  "thorough-tier only (10-20 GB and 10+ min each). NOT covered: the denied amount (loss x ratio with the "
                  "effective-cent rule), 'gain = loss - denied' and the validation of a user-supplied superficial loss "
                  "(0.001 tolerance, '!'): get_delta_superficial_loss_info did not get through CBMC in any configuration "
@@ -488,3 +489,6 @@ CLAIMS["C20"] = {
     "design_ref": "DESIGN.md 0.6, 0.7",
 }
 NOT_APPLICABLE.pop("C20", None)
+
+for _p in ("C03", "C04", "C15"):
+    PROPS[_p]["sequential_tiers"] = ("thorough",)
